@@ -38,6 +38,11 @@ def plan(tier, seed):
     for k in range(12 if tier == "quick" else 120):
         # the batch functions generated with the documented shape option for 2-D state arrays
         specs.append({"klass": "shape_multiple", "i": 50000 + k, "shape_opt": "multiple", "kind": ("grl", "random", "table")[k % 3], "exprs": VEC_EXPRS[(k // 3 * 7) % len(VEC_EXPRS):][:7]})
+    for k in range(6 if tier == "quick" else 30):
+        # option history: the same model is first translated with shape=single (result discarded), then with the default dynamic
+        # shape that is checked; padded with intermediates so that its number of monitored values occurs in no other case of the
+        # (long-lived) worker process
+        specs.append({"klass": "after_shape_single", "i": 60000 + k, "kind": "table", "exprs": VEC_EXPRS[(k * 7) % len(VEC_EXPRS):][:7], "pad": 31 + 2 * k, "first_shape": ("single", "multiple")[k % 2]})
     n = 300 if tier == "quick" else 4000
     for k in range(n):
         specs.append({"klass": "random" if k % 3 else "grl", "i": 100 + k, "fill": True})
@@ -62,7 +67,7 @@ def run_case(spec, ctx):
     if spec.get("text"):
         text = spec["text"]
     elif spec["klass"] == "table" or spec.get("kind") == "table":
-        text = table_model(spec["exprs"])
+        text = table_model(spec["exprs"]) + "".join(f"pad{j} = a * {j + 1} + p\n" for j in range(spec.get("pad", 0)))
     elif spec["klass"] == "grl" or spec.get("kind") == "grl":
         text = grlmodels.gen_grl_model(rng)[0]
     else:
@@ -79,6 +84,11 @@ def run_case(spec, ctx):
     ode = lo.value
     stiff = sorted(ref.states)[::2]
     sch = SCH
+    if spec.get("first_shape"):
+        from gotranx.codegen.base import Shape
+
+        o1 = C.py_code(ode, schemes=sch, stiff_states=stiff, shape=Shape(spec["first_shape"]))
+        cn["generated_first_with_another_shape_option"] = int(o1.ok)
     oc = C.py_code(ode, schemes=sch, stiff_states=stiff)
     if not oc.ok:
         sch = ["explicit_euler"]
